@@ -1,6 +1,7 @@
 import BHS.Props.C01
 import BHS.Props.SqlShape.Add
 import BHS.Props.ChainSvc
+import BHS.Props.RepoWritesGen
 open BHS.Props.C01
 #print axioms C01_inv_init
 #print axioms C01_inv_step
@@ -18,3 +19,6 @@ open BHS.Props.C01
 #print axioms BHS.Props.ChainSvc.Gen_add_refines
 #print axioms BHS.Props.ChainSvc.Gen_run_refines
 #print axioms BHS.Props.ChainSvc.C01_canonical_generated
+#print axioms BHS.Props.RepoWritesGen.UpdateState_atomic
+#print axioms BHS.Props.RepoWritesGen.AddHeaderToDatabase_atomic
+#print axioms BHS.Props.RepoWritesGen.RepoM_writes_simulated
